@@ -27,7 +27,9 @@ func bfsC04core(tier string) *BFSDef {
 	for _, t := range []string{"w/f", "w/d", "w/lf", "w/ld", "w/h", "w/m", "w/d/a"} {
 		al = append(al, "A "+t, "R "+t)
 	}
-	al = append(al, "rm w/f", "touch w/f", "mv w/f w/g", "mv w/g w/f", "resym d/a w/lf", "resym f w/lf", "ln w/f w/h", "rm w/h", "write w/f")
+	al = append(al, "rm w/f", "touch w/f", "mv w/f w/g", "mv w/g w/f", "resym d/a w/lf", "resym f w/lf", "ln w/f w/h", "rm w/h", "write w/f",
+		// an entry of a watched directory that is watched in its own right is renamed / removed / recreated
+		"mv w/d/a w/d/c", "mv w/d/c w/d/a", "rm w/d/a", "touch w/d/a")
 	d := 7
 	if tier == "thorough" {
 		d = 60
